@@ -45,7 +45,8 @@ def scenario(sim):
     types = CANDIDATES[batch * BATCH:(batch + 1) * BATCH]
     lat = (0.0, 0.01)[sim.choose(2)]
     link = Link(sim, latency=(lat, lat))
-    p = ssh.tapped_pair(sim, link=link)
+    strict = (True, True, False)[sim.choose(3)], (True, True, False)[sim.choose(3)]
+    p = ssh.tapped_pair(sim, link=link, client_kw={"strict_kex": strict[0]}, server_kw={"strict_kex": strict[1]})
     p.start(timeout=60)
     p.wait_server()
     p.auth_password()
@@ -58,7 +59,9 @@ def scenario(sim):
     live = set(victim._handler_table) | set(victim._channel_handler_table)
     if victim.auth_handler is not None:
         live |= set(victim.auth_handler._handler_table)
-    desc = {"victim": victim_role, "types": types}
+    # some numbers are sent more than once in the same session
+    types = list(types) + [types[sim.choose(len(types))] for _ in range(sim.choose(3))]
+    desc = {"victim": victim_role, "types": types, "strict": strict}
     sent = []
     for t in types:
         if t in live:
